@@ -80,7 +80,8 @@ def sp_pubfold(eng, st, kids, def_vis, j):
     return V(TSeq(TRef("Obj")), cur)
 
 
-SPEC_ENV = {"keepfold": sp_keepfold, "minlen": sp_minlen, "pubfold": sp_pubfold}
+from contracts import inherit
+SPEC_ENV = {"keepfold": sp_keepfold, "minlen": sp_minlen, "pubfold": sp_pubfold, **inherit.SPEC_ENV}
 AXIOMS = {}
 
 
@@ -116,10 +117,11 @@ def build(reg):
         loops={0: LoopSpec("for child in self.children", index="_j", invariants=[
             ("fold", "pub_children == pubfold(self.children, self.def_vis, _j)")])},
         short="Scope.get_children"))
+    inherit.add(reg, "C12")
     return reg
 
 
-TARGETS = [f"{LS}.serve_autocomplete.get_candidates", f"{SCOPE}.get_children"]
+TARGETS = [f"{LS}.serve_autocomplete.get_candidates", f"{SCOPE}.get_children", f"{inherit.TYPE}._resolve_inherit_parent"]
 
 
 def context_items(repo):
@@ -176,6 +178,11 @@ def extra(repo, reg, tier, seed):
     items.append(Item("C12/Type.get_children/ensures.inherited_included", "proved" if ok else "refuted", "structural", 0.0,
                       where=fi.where(), mode="table", func=fi.qualname,
                       detail="a type's members are its own children followed by the inherited ones (in_children)"))
+    w = inherit.native_search()
+    items.append(Item("C12/session/native_inheritance_orders", "refuted" if w else "bounded-ok", "native-run(bounded)", 0.0, mode="bounded",
+                      witness=w, confirmed=True if w else None, func=f"{inherit.TYPE}._resolve_inherit_parent",
+                      detail="bounded: a three-level EXTENDS chain over four files, all 24 orders of linking the files with the real "
+                             "parser and resolve_links: every type's members are its own plus its ancestors' minus the overridden"))
     w = c12_probe.run()
     it = Item("C12/session/native_probes", "refuted" if w else "bounded-ok", "native-run(bounded)", 0.0, mode="bounded",
               witness=w, confirmed=True if w else None, func=f"{LS}.serve_autocomplete",
@@ -193,6 +200,8 @@ def replay(obligation, model, rep):
 
 def search(func, tier, seed, obligation=""):
     from contracts import c12_probe
+    if func.endswith("_resolve_inherit_parent"):
+        return inherit.native_search()
     if func.endswith("Scope.get_children"):
         from fortls.parsers.internal.scope import Scope
 
